@@ -13,6 +13,7 @@ permutation representations), not proved (conf/C12.json, open_obligations).
 -/
 import DSymVerif.Proofs.Backtrack
 import DSymVerif.Proofs.LowIndex
+import DSymVerif.Proofs.LowIndexSound
 
 namespace DSymVerif.C12
 open DSymVerif DSymVerif.Cosets DSymVerif.LowIndexP
@@ -76,6 +77,40 @@ theorem derived_table_extends (t t' : Table) (rels : List (List Int)) (frm to : 
       | some _ => simp [h1] at h
     | err => simp [h1] at h
     | panic => simp [h1] at h
+
+/-- ○ `derived_table_sound` (success branch).  `Good t` = no pending coincidences and
+    `t[t[c][g]][−g] = c` wherever defined; `Ext2 t t'` = same generators, same partition and
+    every defined entry of `t` is an entry of `t'` with the same value (nothing is
+    overwritten).  The derived table extends its input, stays `Good`, and joins `frm` and
+    `to` under `g`. -/
+theorem derived_table_sound (t t' : Table) (rels : List (List Int)) (frm to : Nat) (g : Int)
+    (hg : Good t) (hgen : g ∈ t.allGens) (h : derivedTable t rels frm to g = .ok (some t')) :
+    Ext2 t t' ∧ Good t' ∧ t.get frm g = .ok none ∧ t.get to (-g) = .ok none ∧
+      t'.get frm g = .ok (some to) ∧ t'.get to (-g) = .ok (some frm) :=
+  derivedTable_some hg hgen h
+
+/-- ○ `derived_table_sound` (rejection branch): `None` only if a slot is already taken or,
+    in some value-preserving inverse-consistent extension of the table with the new entry,
+    a relator that is completely defined from some row closes on two different rows
+    (`Conflict`). -/
+theorem derived_table_rejects_only_on_conflict (t : Table) (rels : List (List Int)) (frm to : Nat)
+    (g : Int) (hg : Good t) (h : derivedTable t rels frm to g = .ok none) :
+    (∃ d, t.get frm g = .ok (some d)) ∨ (∃ d, t.get to (-g) = .ok (some d)) ∨
+      ∃ t0, t.join frm to g = .ok t0 ∧ Ext2 t t0 ∧ Conflict t0 rels :=
+  derivedTable_none hg h
+
+/-- ○ part of `extract_valid`: every table the search ever holds (every state reachable from
+    the empty table) has no pending coincidences and is inverse-consistent. -/
+theorem search_states_inverse_consistent (nrGens : Nat) (rels : List (List Int)) (maxRows : Nat)
+    (t : Table)
+    (hr : BT.Reach (btProblem nrGens rels maxRows) (.ok (Table.new nrGens)) (.ok t)) : Good t :=
+  reachable_good hr
+
+/-! non-vacuity: the empty table satisfies the invariant; the first derived table of the
+    free group of rank 1 -/
+example : Good (Table.new 2) := good_new 2
+example : ∃ t', derivedTable (Table.new 1) [] 0 0 1 = .ok (some t') := ⟨_, rfl⟩
+example : 1 ∈ (Table.new 1).allGens := by decide
 
 /-! non-vacuity: the subgroups of index ≤ 2 of the free group of rank 1 and of
     `ℤ/2 × ℤ/2 = ⟨a, b | a², b², (ab)²⟩` up to index 4 (the suite's own example: sizes 1,2,2,2,4) -/
